@@ -170,7 +170,33 @@ class CostExec(SymExec):
         if isinstance(e, ast.Tuple):
             vals = [self.value(x) for x in e.elts]
             return tagged('tuple', e, elems=vals)
-        return super().value(e)
+        v = super().value(e)
+        if isinstance(e, (ast.Call, ast.BinOp, ast.Subscript, ast.Attribute)) and not isinstance(v, Alg) and tag_of(v) is None and self.touches_private(e):
+            # computed from private quantities in a way no sensitivity rule covers: NOT public (an untyped value must not pass for one)
+            return Opaque(e, Tag('derived'))
+        return v
+
+    PRIVATE_KINDS = ('data', 'vec', 'sens', 'qvec', 'derived')
+
+    def join_opaque(self, k, a, b):
+        for v in (a, b):
+            t = tag_of(v)
+            if t is not None and (t.kind in self.PRIVATE_KINDS or (t.kind in ('dictof', 'valuesof') and getattr(t, 'elem', None) is not None
+                                                                   and t.elem.kind in self.PRIVATE_KINDS)):
+                return Opaque(k, Tag('derived'))       # private on one side: not public after the branch
+        return Opaque(k, 'join')
+
+    def touches_private(self, e):
+        for n in ast.walk(e):
+            if isinstance(n, ast.Name):
+                t = tag_of(self.env.get(n.id))
+                if t is None:
+                    continue
+                if t.kind in self.PRIVATE_KINDS:
+                    return True
+                if t.kind in ('dictof', 'valuesof') and getattr(t, 'elem', None) is not None and t.elem.kind in self.PRIVATE_KINDS:
+                    return True
+        return False
 
     def bind_elements(self, target, it):
         """loop / comprehension variables: keys are public; the value element of a public mapping X is the symbol elemof:X
